@@ -11,6 +11,7 @@ CONSTANTS
   AuxModes = {FALSE, TRUE}
   Fresh = "zz"
 INVARIANT Equivariant
+INVARIANT BothClones
 INVARIANT AbsoluteIndependent
 INVARIANT FreshUnused
 INVARIANT WellFormed
